@@ -497,6 +497,18 @@ func (s *safety) dischargePanicSite(p *Path, ix *pathIndex, e *Event, conds []Co
 		if nonNegative(i, conds) && condHolds(conds, i, "<", ln) {
 			return true, "index bounded by a dominating i < len(x)"
 		}
+		// an unsigned (or non-negative) value modulo a constant k indexes an array of at least k elements
+		if m := stripCT(i); m.Op == "binop" && m.Name == "%" && len(m.Args) == 2 {
+			if k, isC := m.Args[1].Int64(); isC && k > 0 {
+				unsigned := false
+				if bt, isB := typeUnder(m.Type).(*types.Basic); isB && bt.Info()&types.IsUnsigned != 0 {
+					unsigned = true
+				}
+				if n, isL := affOf(e.IntType2Len(x)).IsConst(); (unsigned || nonNegative(m.Args[0], conds)) && isL && k <= n {
+					return true, "index is a value modulo a constant no larger than the array"
+				}
+			}
+		}
 		return false, fmt.Sprintf("index %s not provably within [0, %s)", i.Pretty(), ln.Pretty())
 	case "slice":
 		x, lo, hi := stripCT(e.Args[0]), e.Args[1], e.Args[2]
@@ -1616,4 +1628,23 @@ func (s *safety) atomicPtrNeverNil(named *types.Named, field int) (bool, string)
 	}
 	s.atomicMemo[key] = reason
 	return reason == "", "atomic pointer " + key + ": set by the constructor of every instance, only ever replaced by addresses of fresh variables"
+}
+
+// IntType2Len: the length of the indexed operand when it is an array (or pointer to array) – a constant of its type.
+func (e *Event) IntType2Len(x *Val) *Val {
+	t := e.IntType
+	if t == nil && x != nil {
+		t = x.Type
+	}
+	for i := 0; i < 2 && t != nil; i++ {
+		switch u := t.Underlying().(type) {
+		case *types.Array:
+			return mkInt(u.Len())
+		case *types.Pointer:
+			t = u.Elem()
+			continue
+		}
+		break
+	}
+	return mkLen(x)
 }
